@@ -161,7 +161,22 @@ InitWith(P) ==
   \* (the harness passes the value j for the j-th input)
   /\ syms = [j \in 1..Len(prog.inputs) |-> [name |-> prog.inputs[j], depth |-> 1, const |-> TRUE, val |-> VNum(j)]]
   /\ depth = 1
-  /\ heap = <<>> /\ out = <<>> /\ tr = <<>> /\ exc = NoExc /\ nact = 1
+  \* the definitions of a text are statements of its block, executed before the first ordinary statement: a method (or type) name
+  \* defined twice in one text is a redeclaration fault before anything else runs
+  /\ LET FMod(j) == IF "mod" \in DOMAIN prog.funcs[j] THEN prog.funcs[j].mod ELSE 0
+         \* (the types of a text are written before its methods)
+         DupC == {j \in 1..Len(prog.classes) : \E i \in 1..j - 1 : prog.classes[i].name = prog.classes[j].name}
+         DupF == {j \in 1..Len(prog.funcs) : FMod(j) = 0 /\ (\/ \E i \in 1..j - 1 : FMod(i) = 0 /\ prog.funcs[i].name = prog.funcs[j].name
+                                                             \/ \E i \in 1..Len(prog.classes) : prog.classes[i].name = prog.funcs[j].name)}
+         Min(S) == CHOOSE x \in S : \A y \in S : x <= y
+         \* the fault arises AT the second definition: its header line (path <<100 * j>> of type j, <<j>> of method j)
+         at == IF DupC # {} THEN <<100 * Min(DupC)>> ELSE <<Min(DupF)>>
+     IN IF DupC # {} \/ DupF # {}
+        THEN /\ heap = << [k |-> "exc", msg |-> "redeclared", bi |-> TRUE] >>
+             /\ exc = [on |-> TRUE, v |-> VRef(1), cls |-> "@exc", msg |-> "redeclared", builtin |-> TRUE,
+                       path |-> at, chain |-> << at >>, arity |-> FALSE]
+        ELSE heap = <<>> /\ exc = NoExc
+  /\ out = <<>> /\ tr = <<>> /\ nact = 1
   /\ res = [k |-> "run"]
 
 (* ------------------------------------------------------------------ symbol table = runtime.Scope *)
